@@ -60,7 +60,9 @@ func (f *File) IsDir() bool {
 func (f *File) getData() []byte {
 	f.dataMU.RLock()
 	defer f.dataMU.RUnlock()
-	return f.data
+	var datacopy = make([]byte, len(f.data))
+	copy(datacopy, f.data)
+	return datacopy
 }
 
 // setData set new file data bytes
@@ -68,5 +70,6 @@ func (f *File) setData(data []byte) {
 	f.dataMU.Lock()
 	defer f.dataMU.Unlock()
 	f.time = time.Now()
-	f.data = data
+	f.data = make([]byte, len(data))
+	copy(f.data, data)
 }
